@@ -12,7 +12,7 @@
     [inc_end m g n] / [hh_end g n] = n lies on an included / on an H-H bond, [charge_changed a] = the two charges in typesGH differ.
     Theorems 13-17: the RadiusExpand helpers. *)
 From Coq Require Import List NArith ZArith Bool.
-From SK Require Import lib.LGraph lib.C01_GraphLemmas model.C01_Model model.C01_Opts model.C02_Model model.C02_Store model.C02_Api proof.C02_Store proof.C02_StoreCtx proof.C02_Api proof.C02_Proof proof.C02_Opts proof.C02_OptsEquiv proof.C02_Ctx proof.C02_Lre proof.C02_LreTrace proof.C02_Sides proof.C02_Sides2 proof.C02_CtxEquiv proof.C02_CtxCentre proof.C02_CtxNest.
+From SK Require Import lib.LGraph lib.C01_GraphLemmas model.C01_Model model.C01_Opts model.C02_Model model.C02_Store model.C02_Api proof.C02_Store proof.C02_StoreCtx proof.C02_StoreEquiv proof.C02_Api proof.C02_Proof proof.C02_Opts proof.C02_OptsEquiv proof.C02_Ctx proof.C02_Lre proof.C02_LreTrace proof.C02_Sides proof.C02_Sides2 proof.C02_CtxEquiv proof.C02_CtxCentre proof.C02_CtxNest.
 (* [extract_k_S] in section 28 is the definition of model/C02_Store.v (proof/C02_Proof.v has a lemma of that name) *)
 From SK Require Import model.C02_Store.
 Import ListNotations.
@@ -490,3 +490,49 @@ Theorem C02_extract_k_negative : forall (g : its) k, wf g -> k < -1 ->
                  adj g u v = Some e /\ In u (node_ids (get_rc g)) /\ In v (node_ids (get_rc g))).
 Proof. exact extract_k_z_negative. Qed.
 Print Assumptions C02_extract_k_negative.
+
+(** 30. get_rc pass by pass ([rc_pass1] .. [rc_pass4], model/C02_Api.v; the harness calls _add_changed_bonds, _add_hh_bonds,
+        _add_charge_change_nodes, _reconnect_rc_edges one by one on the same graph and compares the state after each):
+        (a) get_rc is the state after pass 2 (disconnected=False) resp. pass 4 (disconnected=True);
+        (b) after _add_changed_bonds: exactly the included bonds with [out_edge], exactly their endpoints with the selected labels;
+        (c) later passes only add: an atom keeps the labels it was inserted with, a bond its attributes (first wins). *)
+Theorem C02_rc_passes_compose : forall K m (g : xits),
+  get_rc_x K false m g = LG (fst (rc_pass2 K m g)) (snd (rc_pass2 K m g)) /\
+  get_rc_x K true m g = LG (fst (rc_pass4 K m g)) (snd (rc_pass4 K m g)).
+Proof. exact rc_passes_compose. Qed.
+Print Assumptions C02_rc_passes_compose.
+
+Theorem C02_rc_pass1 : forall K m (g : xits), wf g ->
+  (forall u v y, find_edge u v (snd (rc_pass1 K m g)) = Some y <->
+                 exists x, adj g u v = Some x /\ include_x m x = true /\ y = out_edge x) /\
+  (forall n b, assoc n (fst (rc_pass1 K m g)) = Some b <->
+               exists a, label g n = Some a /\ b = sel_attr K a /\
+                         exists u v x, In (u, v, x) (gedges g) /\ include_x m x = true /\ (n = u \/ n = v)).
+Proof. exact rc_pass1_spec. Qed.
+Print Assumptions C02_rc_pass1.
+
+Theorem C02_rc_passes_grow : forall K m (g : xits),
+  (forall n b, assoc n (fst (rc_pass1 K m g)) = Some b -> assoc n (fst (rc_pass2 K m g)) = Some b) /\
+  (forall u v y, find_edge u v (snd (rc_pass1 K m g)) = Some y -> find_edge u v (snd (rc_pass2 K m g)) = Some y) /\
+  (NoDup (node_ids g) -> forall n b, assoc n (fst (rc_pass2 K m g)) = Some b -> assoc n (fst (rc_pass3 K m g)) = Some b) /\
+  (forall u v y, find_edge u v (snd (rc_pass3 K m g)) = Some y -> find_edge u v (snd (rc_pass4 K m g)) = Some y).
+Proof. exact rc_passes_grow. Qed.
+Print Assumptions C02_rc_passes_grow.
+
+(** 31. The remaining clauses of the property on ITS graphs of ANY label shape (pair labels of store=True, absent labels):
+        the centre is well-formed, extracting the centre of a centre changes nothing (element_key keeps element and typesGH, as in
+        theorem 18), and get_rc commutes with every injective renumbering.  Derived from theorems 18 on the flattened graph and
+        27(b): [flat] forgets only the product side of a pair, which the copied labels determine. *)
+Theorem C02_rcS_wf : forall K d m (g : sits), wf g -> wf (get_rc_S K d m g).
+Proof. exact rcS_wf. Qed.
+Print Assumptions C02_rcS_wf.
+
+Theorem C02_rcS_idem : forall K d m (g : sits), k_el K = true -> k_gh K = true -> wf g ->
+  geq (get_rc_S K d m (get_rc_S K d m g)) (get_rc_S K d m g).
+Proof. exact rcS_idem. Qed.
+Print Assumptions C02_rcS_idem.
+
+Theorem C02_rcS_equivariant : forall f : N -> N, (forall a b, f a = f b -> a = b) -> forall K d m (g : sits), wf g ->
+  get_rc_S K d m (relabel f g) = relabel f (get_rc_S K d m g).
+Proof. exact rcS_equivariant. Qed.
+Print Assumptions C02_rcS_equivariant.
